@@ -46,7 +46,7 @@ theorem evalM_conj_off : ∀ (c : Cond V), Cond.conj c = true → ∀ (π : Path
   | and l r ihl ihr =>
     intro hc π req β st
     simp only [Cond.conj, Bool.and_eq_true] at hc
-    simp only [evalM, Bool.false_and, Bool.false_eq_true, if_false]
+    simp only [evalM]
     rw [evalCond]
     have hl := ihl hc.1 (0 :: π) (reqLeftOfAnd r.vars req) β st
     -- the fold over the left outputs appends, for each true left output, the outputs of the right operand
@@ -55,7 +55,7 @@ theorem evalM_conj_off : ∀ (c : Cond V), Cond.conj c = true → ∀ (π : Path
     rw [foldl_fst_flatMap _ (fun lv => evalCond W D r lv.1 false)]
     · simp
     · intro acc lv
-      simp only [ihr hc.2]
+      simp only [andStep, Bool.false_and, Bool.false_eq_true, if_false, ihr hc.2]
   | elseIf l r _ _ => intro hc; simp [Cond.conj] at hc
   | sub sel c _ => intro hc; simp [Cond.conj] at hc
 
